@@ -223,6 +223,17 @@ def consultW (judge : Judge) (x : RdSt) (rc : RecW) : StepOutW :=
   | .skipRecord => .continue x' { rc with st := .skipRecord }
   | .stop => .done .none (resetIov x')
 
+/-- A non-empty `Data` chunk `a` (handle `hd`) in record state `rc1`: the chunk leaves the world — into
+`decode_anchored`, or dropped at the end of the iteration — and the judge is consulted. -/
+def onDataW (p : Params) (judge : Judge) (x : RdSt) (rc1 : RecW) (off hd : Nat) (a : ASlice) : Option StepOutW :=
+  let w0 := x.w.setASlice hd none
+  if rc1.st = .decodeRecord then
+    match decodeAnchored p w0 x.s.iov rc1.dec a with
+    | none => none
+    | some (w', .ok d') => some (consultW judge { x with w := w' } { rc1 with dec := d', stop := off })
+    | some (w', .error _) => some (consultW judge { x with w := w' } { rc1 with st := .skipRecord, stop := off })
+  else some (consultW judge { x with w := w0 } { rc1 with stop := off })
+
 /-- The `match` on the chunk `pump` returned (`Stream.onChunk`). -/
 def onChunkW (p : Params) (judge : Judge) (x : RdSt) (rc : RecW) : ChunkW → Option StepOutW
   | .sentinel off =>
@@ -246,14 +257,7 @@ def onChunkW (p : Params) (judge : Judge) (x : RdSt) (rc : RecW) : ChunkW → Op
           match rc.st with
           | .skipSentinel => { rc with start := off - a.slice.len, stop := off - a.slice.len, st := .decodeRecord }
           | _ => rc
-        -- the chunk leaves the world: into `decode_anchored`, or dropped at the end of the iteration
-        let w0 := x.w.setASlice h none
-        if rc1.st = .decodeRecord then
-          match decodeAnchored p w0 x.s.iov rc1.dec a with
-          | none => none
-          | some (w', .ok d') => some (consultW judge { x with w := w' } { rc1 with dec := d', stop := off })
-          | some (w', .error _) => some (consultW judge { x with w := w' } { rc1 with st := .skipRecord, stop := off })
-        else some (consultW judge { x with w := w0 } { rc1 with stop := off })
+        onDataW p judge x rc1 off h a
 
 /-- One iteration of the inner `loop` (`Stream.step`). -/
 def stepW (clamp : Nat) (p : Params) (judge : Judge) (block : Nat) (x : RdSt) (rc : RecW) : Option StepOutW :=
